@@ -1,5 +1,6 @@
 pub mod c01;
 pub mod c05;
+pub mod c11;
 pub mod c12;
 pub mod c20;
 
@@ -9,10 +10,11 @@ pub fn by_id(id: &str) -> Option<Box<dyn DynProperty>> {
     Some(match id {
         "C01" => Box::new(c01::C01::new()),
         "C05" => Box::new(c05::C05::new()),
+        "C11" => Box::new(c11::C11::new()),
         "C12" => Box::new(c12::C12::new()),
         "C20" => Box::new(c20::C20::new()),
         _ => return None,
     })
 }
 
-pub const IDS: &[&str] = &["C01", "C05", "C12", "C20"];
+pub const IDS: &[&str] = &["C01", "C05", "C11", "C12", "C20"];
